@@ -5,7 +5,9 @@ from .core import Rng
 from . import concref as CR
 
 TREES = ["S1 S2 T5:97 F T5:98 F", "S1 T5:97 S2 F S2 T5:98 T5:99 F F", "S1 S2 S2 T5:97 F F F"]
-NAV_PROGS = ["f0", "l0", "c0:1", "f0 f1", "f0 s1", "l0 p1", "c0:2", "f0 l0", "l0 f0", "f0 f1 f2", "c0:1 p1"]
+NAV_PROGS = ["f0", "l0", "c0:1", "f0 f1", "f0 s1", "l0 p1", "c0:2", "f0 l0", "l0 f0", "f0 f1 f2", "c0:1 p1",
+             # a z n b: the same hops through the node-only routes wherever the element reached is a node
+             "a0", "z0", "a0 a1", "a0 n1", "z0 b1", "a0 z0", "z0 a0", "a0 a1 a2"]
 
 
 class ConcBase(Property):
